@@ -9,7 +9,7 @@ CONSTANTS
   MaxTicks = 2
   MaxEvicts = 1
   MaxReads = 1
-  MaxFrees = 1
+  MaxFrees = 0
   FixEvict = TRUE
   CopyOnMerge = TRUE
 INVARIANTS TypeOK ReportSorted ReportUnique ReportCapped OnlyAccessed NoZeroHeat ViewSorted ViewUnique ViewCapped ViewOnlyAccessed CountersBounded
